@@ -40,14 +40,16 @@ RULE = ('groups = (strategy in {eagle, eagle with the gp_ucb_pe config, eagle '
         'multiplicative, random} x feature layout (0..6 continuous, 0..5 '
         'categorical of 2..6 categories, never both 0) x feature/trial padding '
         '{none, powers of 2, multiples of 10} x batch size {5,10,25} x '
-        'max_evaluations 40..2000 x count relation {1, <batch, ==batch, >batch, '
+        'max_evaluations 1..2000 x count relation {1, <batch, ==batch, >batch, '
         '==all evaluations} x n_parallel {None,1,2,3} x use_fori x #priors '
         '{0, few, more than the pool} x float32/float64 x jitted/eager call); '
         'per group one compilation and 12..60 cases = score-function class '
         '{interior quadratic, corner-seeking linear, categorical indicator, '
         'plateau, constant, mixture, NaN region, -inf region, large/small '
         'magnitude} x prior class {random, optimum planted first/last/middle, '
-        'duplicates, corners} x seed. A case is non-trivial unless the score is '
+        'duplicates, corners, coordinates outside the unit cube} x seed; budgets '
+        'below one batch, not a multiple of the batch, just short of the eagle '
+        'pool and ending before the pool is swept. A case is non-trivial unless the score is '
         'constant; distinct = hash of (group shape, function class, prior class).')
 ASSUMPTIONS = [
     'reward re-evaluation tolerance: 5e-5 (float32) / 1e-11 (float64) times the '
@@ -61,7 +63,13 @@ ASSUMPTIONS = [
     'once, under nan-reward-returned-as-best; their other anomalies (NaN '
     'features, result below the best prior) are counted, not reported again',
     'NaN prior scores are ignored for the not-worse-than-prior oracle; prior '
-    'features are in bounds (they come from completed trials)',
+    'categorical features are valid indices; prior continuous features may lie '
+    'outside the unit cube (trials completed under other bounds) and then the '
+    'reference of the not-worse-than-prior oracle is the score of the prior '
+    'clipped into the cube - an out-of-cube point is not a legitimate candidate',
+    'count <= max_evaluations: the budget always allows `count` evaluations, so '
+    'unfilled (-inf placeholder) slots are accepted only after at least '
+    'max_evaluations candidates were scored',
     'ties in rewards make order and choice among equal rewards arbitrary: '
     'results are compared as multisets of rewards and rows are looked up in the '
     'evaluation log',
@@ -79,12 +87,15 @@ REQUIRED_COUNTERS = [
     'mask_checked', 'determinism_checked', 'seed_sensitivity_pairs',
     'count_gt_batch_cases', 'count_eq_1_cases', 'nonfinite_region_cases',
     'zero_continuous_layouts', 'zero_categorical_layouts',
+    'budget_below_batch_cases', 'budget_not_multiple_of_batch_cases',
+    'budget_short_of_pool_with_priors_cases', 'outside_cube_prior_cases:eagle',
 ]
 MIN_DISTINCT = {'quick': 200, 'thorough': 1500}
 
 FN_CLASSES = ['quad', 'corner', 'cat', 'plateau', 'mix', 'nanreg', 'infreg',
               'const', 'big', 'tiny']
-PRIOR_CLASSES = ['random', 'opt-first', 'opt-last', 'opt-mid', 'dups', 'corners']
+PRIOR_CLASSES = ['random', 'opt-first', 'opt-last', 'opt-mid', 'dups', 'corners',
+                 'outside']
 PADS = ['NONE', 'POWERS_OF_2', 'MULTIPLES_OF_10']
 STRATEGIES = ['eagle', 'random', 'eagle', 'eagle-ucbpe', 'eagle', 'random',
               'eagle-mult', 'eagle']
@@ -117,20 +128,21 @@ def eagle_pool_size(n_features, batch, exponent=1.2, max_pool=100):
 # compiles only 2-4 shapes per shard): together they cover every strategy,
 # layout kind, padding, count relation and prior class.
 FIRST = [
-    # strategy, layout, padf, count relation, priors
-    ('random', 'mixed', 'NONE', 'gt', 'few'),
-    ('eagle', 'mixed', 'POWERS_OF_2', 'lt', 'few'),
-    ('eagle', 'cat', 'NONE', 'one', 'many'),
-    ('eagle-ucbpe', 'mixed', 'MULTIPLES_OF_10', 'gt', 'few'),
-    ('eagle', 'cont', 'POWERS_OF_2', 'eq', 'none'),
-    ('random', 'cont', 'NONE', 'one', 'none'),
-    ('eagle-mult', 'mixed', 'NONE', 'lt', 'none'),
-    ('eagle', 'mixed', 'MULTIPLES_OF_10', 'all', 'few'),
-    ('random', 'cat', 'NONE', 'lt', 'many'),
-    ('eagle', 'cont', 'NONE', 'gt', 'many'),
-    ('eagle-ucbpe', 'cat', 'POWERS_OF_2', 'one', 'few'),
-    ('random', 'mixed', 'POWERS_OF_2', 'lt', 'few'),
+    # strategy, layout, padf, count relation, priors, budget class
+    ('random', 'mixed', 'NONE', 'gt', 'few', 'std'),
+    ('eagle', 'mixed', 'POWERS_OF_2', 'lt', 'few', 'std'),
+    ('eagle', 'cat', 'NONE', 'one', 'many', 'below-batch'),
+    ('eagle-ucbpe', 'mixed', 'MULTIPLES_OF_10', 'gt', 'few', 'std'),
+    ('eagle', 'cont', 'POWERS_OF_2', 'eq', 'none', 'std'),
+    ('random', 'cont', 'NONE', 'one', 'none', 'below-batch'),
+    ('eagle-mult', 'mixed', 'NONE', 'lt', 'none', 'std'),
+    ('eagle', 'mixed', 'MULTIPLES_OF_10', 'all', 'few', 'std'),
+    ('random', 'cat', 'NONE', 'lt', 'many', 'std'),
+    ('eagle', 'cont', 'NONE', 'gt', 'many', 'short-of-pool'),
+    ('eagle-ucbpe', 'cat', 'POWERS_OF_2', 'one', 'few', 'std'),
+    ('random', 'mixed', 'POWERS_OF_2', 'lt', 'few', 'std'),
 ]
+UCBPE_EXPONENT = 2.0494446726436744
 
 
 def gen_group(rng, index, tier):
@@ -154,40 +166,65 @@ def gen_group(rng, index, tier):
       if cats:
         cats = (cats + [2, 3, 4])[:3]
   elif strategy == 'random':
-    # the random strategy with padded features is a separate (rare) class
-    padf = rng.choice(PADS) if rng.random() < 0.15 else 'NONE'
+    padf = rng.choice(PADS) if rng.random() < 0.3 else 'NONE'
   else:
     padf = rng.choice(PADS)
   padt = rng.choice(PADS)
   batch = rng.choice([5, 10, 25, 25])
   n_parallel = 0 if fixed else rng.choice([0, 0, 0, 0, 1, 2, 3])
   nfeat = ncont + len(cats)
-  pool = eagle_pool_size(nfeat, batch, 2.0494446726436744 if strategy == 'eagle-ucbpe' else 1.2)
-  use_fori = True if fixed else rng.random() < 0.75
-  tiny_budget = (not fixed and strategy.startswith('eagle') and pool > batch
-                 and rng.random() < 0.06)
-  if tiny_budget:
-    max_evals = rng.choice(list(range(batch, pool, batch)))
-  elif not use_fori:
-    # unrolled under jit: compile time grows with the number of iterations
-    max_evals = max(pool, batch * rng.randint(2, 5))
+  exponent = UCBPE_EXPONENT if strategy == 'eagle-ucbpe' else 1.2
+  eagle = strategy.startswith('eagle')
+  # budget class: how max_evaluations relates to the batch and to the eagle pool
+  #   std            >= pool, often not a multiple of the batch
+  #   below-batch    1 .. batch-1 (one round must still run)
+  #   short-of-pool  pool-batch < max_evaluations < pool: the rounded-up number
+  #                  of rounds still sweeps the whole pool (eagle)
+  #   tiny           even the rounded-up budget ends before the pool is swept
+  if fixed:
+    budget = fixed[5]
   else:
-    max_evals = max(pool, rng.choice([40, 100, 200, 333, 500, 1000, 2000]))
-    if n_parallel or fixed:
-      max_evals = min(max_evals, max(pool, 500))
+    budget = rng.choice(['std'] * 39 + ['below-batch'] * 4
+                        + ['short-of-pool'] * 4 + ['tiny'] * 3)
+  if budget in ('short-of-pool', 'tiny'):
+    if not eagle:
+      budget = 'std'
+    elif eagle_pool_size(nfeat, batch, exponent) <= batch:
+      batch = rng.choice([5, 10])      # the pool has at least 11 fireflies
+  pool = eagle_pool_size(nfeat, batch, exponent)
+  use_fori = True if fixed else rng.random() < 0.75
+  tiny_budget = budget == 'tiny'
+  if budget == 'tiny':
+    max_evals = rng.randint(1, pool - batch)
+  elif budget == 'short-of-pool':
+    max_evals = rng.randint(pool - batch + 1, pool - 1)
+  elif budget == 'below-batch':
+    max_evals = rng.randint(1, batch - 1)
+  else:
+    if not use_fori:
+      # unrolled under jit: compile time grows with the number of iterations
+      max_evals = max(pool, batch * rng.randint(2, 5))
+    else:
+      max_evals = max(pool, rng.choice([40, 100, 200, 333, 500, 1000, 2000]))
+      if n_parallel or fixed:
+        max_evals = min(max_evals, max(pool, 500))
+    if rng.random() < 0.4:
+      max_evals += rng.randint(1, batch - 1)     # not a multiple of the batch
   n_iter = (max_evals - 1) // batch + 1
   total = n_iter * batch
   rel = fixed[3] if fixed else rng.choice(['one', 'lt', 'lt', 'eq', 'gt', 'gt', 'all'])
-  if rel == 'all' and total > 250:
+  if rel == 'all' and (total > 250 or max_evals != total):
     if fixed:
-      max_evals = max(pool, 100)
-      total = ((max_evals - 1) // batch + 1) * batch
+      max_evals = total = ((max(pool, 100) - 1) // batch + 1) * batch
     else:
       rel = 'gt'
   count = {'one': 1, 'lt': rng.randint(2, max(2, batch - 1)), 'eq': batch,
            'gt': batch + rng.randint(1, batch + 3), 'all': total}[rel]
-  count = min(count, total)
+  # the budget always allows `count` evaluations
+  count = min(count, max_evals)
   pc = fixed[4] if fixed else rng.choice(['none', 'few', 'few', 'many'])
+  if budget == 'short-of-pool' and pc != 'many' and rng.random() < 0.7:
+    pc = 'many'
   n_prior = {'none': 0, 'few': rng.randint(1, 6),
              'many': pool + rng.randint(1, 40)}[pc]
   if tiny_budget and n_prior == 0:
@@ -202,11 +239,11 @@ def gen_group(rng, index, tier):
     # by one (seconds per iteration for eagle): only tiny runs, thorough tier
     if tier == 'quick' or (strategy != 'random' and pool > 2 * batch):
       use_fori = True
-    elif not tiny_budget:
+    elif budget == 'std':
       max_evals = max(pool, 2 * batch)
   if mode == 'eager':
     max_evals = min(max_evals, max(pool, 500))
-    count = min(count, ((max_evals - 1) // batch + 1) * batch)
+  count = min(count, max_evals)
   return {'strategy': strategy, 'ncont': ncont, 'cats': cats, 'padf': padf,
           'padt': padt, 'batch': batch, 'max_evals': max_evals,
           'use_fori': use_fori, 'n_parallel': n_parallel, 'count': count,
@@ -223,7 +260,8 @@ def group_shape(g):
   return [g['strategy'], g['ncont'], sorted(g['cats']), g['padf'], g['padt'], b,
           rel, g['n_parallel'], g['use_fori'],
           0 if not g['n_prior'] else (1 if g['n_prior'] <= 6 else 2),
-          g['x64'], g['mode'], g['max_evals'] < 100]
+          g['x64'], g['mode'], g['max_evals'] < 100, g['max_evals'] < b,
+          g['max_evals'] % b != 0]
 
 
 # ---------------------------------------------------------------------------
@@ -492,12 +530,29 @@ def gen_priors(env, p, prior_class, nrng):
     pos = {'opt-first': 0, 'opt-last': m - 1, 'opt-mid': m // 2}[prior_class]
     c[pos] = oc
     z[pos] = oz
+  if prior_class == 'outside' and n:
+    # completed trials whose values lie outside the current bounds: scaled
+    # coordinates beyond the unit cube (the converter does not validate them).
+    # They leave the cube in the direction the linear term rewards, so that an
+    # unprojected copy would out-score every legitimate candidate.
+    rows = sorted({0, m - 1, int(nrng.integers(m)), int(nrng.integers(m))}
+                  | {int(i) for i in nrng.integers(0, m, size=m // 4)})
+    wl = np.asarray(p['wl'][:n], dtype=np.float64)
+    for r in rows:
+      direction = np.where(wl != 0, np.sign(wl), nrng.choice([-1.0, 1.0], size=n))
+      depth = nrng.uniform(0.05, 0.6, size=n)
+      out = np.where(direction > 0, 1.0 + depth, -depth)
+      leave = nrng.random(n) < 0.7
+      leave[int(nrng.integers(n))] = True
+      c[r] = np.where(leave, out, c[r])
   # the features exactly as the optimiser will see them (float32 without x64)
   c = c.astype(env.fdtype).astype(np.float64)
   prior = env.types.ModelInput(
       continuous=env.sched.pad_features(c),
       categorical=env.sched.pad_features(z))
-  return prior, c, z
+  # the oracle's reference point is the prior projected into the unit cube: a
+  # point outside the cube is not a legitimate candidate
+  return prior, np.clip(c, 0.0, 1.0), z
 
 
 def group_scores(env, p, c, z):
@@ -572,22 +627,29 @@ def check_result(rep, env, case, p, prior_c, prior_z, res, log):
   has_prior = prior_c is not None
   loop = [e for e in log if not (has_prior and e[0] == 0)]
   pri = [e for e in log if has_prior and e[0] == 0]
-  if not loop:
-    ctx.inconclusive_reason('no evaluation reached the host callback')
-    return facts
 
   def norm(a, width):
     a = np.asarray(a)
     return a.reshape(a.shape[0], P, width)
-  ev_c = np.concatenate([norm(e[1], ncp) for e in loop], axis=0)
-  ev_z = np.concatenate([norm(e[2], nkp) for e in loop], axis=0)
-  ev_r = np.concatenate([np.asarray(e[5]).reshape(-1) for e in loop], axis=0)
+  if loop:
+    ev_c = np.concatenate([norm(e[1], ncp) for e in loop], axis=0)
+    ev_z = np.concatenate([norm(e[2], nkp) for e in loop], axis=0)
+    ev_r = np.concatenate([np.asarray(e[5]).reshape(-1) for e in loop], axis=0)
+  else:
+    # not a single suggest-evaluate round reached the score function
+    ctx.count('runs_without_any_loop_evaluation')
+    ev_c = np.zeros((0, P, ncp), dtype=fc.dtype)
+    ev_z = np.zeros((0, P, nkp), dtype=fz.dtype)
+    ev_r = np.zeros((0,), dtype=rw.dtype)
   ctx.count('evaluations_observed', int(ev_r.size))
   expected_evals = ((g['max_evals'] - 1) // g['batch'] + 1) * g['batch']
   if ev_r.size != expected_evals:
     ctx.count('evaluation_count_differs_from_budget')
+  if ev_r.size < g['max_evals']:
+    ctx.count('runs_that_evaluated_less_than_max_evaluations')
   n_ranked = int(np.sum(np.isfinite(ev_r)))
-  placeholders_legit = n_ranked < count
+  # slots may stay unfilled only once the evaluation budget (>= count) is used
+  placeholders_legit = n_ranked < count and ev_r.size >= g['max_evals']
   if placeholders_legit:
     ctx.count('cases_with_fewer_finite_evaluations_than_count')
   with np.errstate(invalid='ignore'):
@@ -817,7 +879,15 @@ def check_result(rep, env, case, p, prior_c, prior_z, res, log):
             {'continuous': fc[i], 'categorical': fz[i],
              'rewards_logged_for_these_features': logged})
   else:
+    # count <= max_evaluations, yet fewer than `count` candidates were scored:
+    # some returned rows cannot carry the score of an evaluated candidate
     ctx.count('fewer_evaluations_than_count')
+    rep.violation(
+        f'returned-row-never-evaluated:{fam}:budget-not-used',
+        f'{strat}: {count} candidates returned but only {ev_r.size} were '
+        f'evaluated although max_evaluations={g["max_evals"]} >= count (batch '
+        f'size {g["batch"]})', case,
+        {'returned_rewards': rw[:8], 'continuous': fc[:3], 'categorical': fz[:3]})
   # -- 8. never worse than the best prior ---------------------------------------
   if has_prior:
     groups = prior_c.shape[0] // P
@@ -840,8 +910,11 @@ def check_result(rep, env, case, p, prior_c, prior_z, res, log):
       elif best < best_prior - slack:
         if fam == 'random':
           cond = ''
-        elif env.pool and g['max_evals'] < env.pool:
+        elif env.pool and expected_evals < env.pool:
+          # even the rounded-up number of rounds ends before the pool is swept
           cond = ':evaluations-fewer-than-pool'
+        elif ev_r.size < expected_evals:
+          cond = ':fewer-rounds-than-budget'
         elif np.isnan(ps).any():
           # eagle keeps a NaN-scored prior in its pool instead of a better one
           cond = ':nan-scored-prior'
@@ -918,6 +991,14 @@ def run_case(rep, env, case, repeat_check=False):
     ctx.count('count_eq_all_evaluations_cases')
   if case['fn'] in ('nanreg', 'infreg'):
     ctx.count('nonfinite_region_cases')
+  if g['max_evals'] < g['batch']:
+    ctx.count('budget_below_batch_cases')
+  if g['max_evals'] % g['batch']:
+    ctx.count('budget_not_multiple_of_batch_cases')
+  if env.pool and g['max_evals'] < env.pool <= total and g['n_prior']:
+    ctx.count('budget_short_of_pool_with_priors_cases')
+  if case['prior'] == 'outside' and g['ncont'] and g['n_prior']:
+    ctx.count('outside_cube_prior_cases:' + strategy_family(g))
   if case['fn'] in ('plateau', 'const', 'cat'):
     ctx.count('plateau_cases')
   if g['n_parallel']:
